@@ -187,7 +187,7 @@ def run_real(sb_dir, case, variant='v0', cwd_mode=None, loc='+loc+', keep_inputs
     elif outmode == 'rel':
         run_cwd = workdir if cwd_mode is None else cwd_mode(base, abs_inputs, workdir)
         out_abs = os.path.join(run_cwd, 'rel', 'out'); outdir = os.path.join('rel', 'out')
-    elif outmode == 'nested': out_abs = os.path.join(abs_inputs[0], '_docs') if inputs[0]['kind'] == 'dir' else os.path.join(base, 'out'); outdir = out_abs
+    elif outmode == 'nested': out_abs = os.path.join(abs_inputs[0], case.get('nested_name', '_docs')) if inputs[0]['kind'] == 'dir' else os.path.join(base, 'out'); outdir = out_abs
     elif outmode == 'prepopulated':
         out_abs = os.path.join(base, 'out'); outdir = out_abs; os.makedirs(os.path.join(out_abs, 'other'), exist_ok=True)
         with open(os.path.join(out_abs, 'other', 'keep.rst'), 'w') as f: f.write('unrelated')
